@@ -14,6 +14,18 @@ from typing import Protocol, cast, runtime_checkable
 time_unit_type = int | float | timedelta
 
 
+def _exp_term(factor: float, exp_base: float, attempts: int) -> float:
+    """``factor * exp_base**attempts`` that saturates to infinity instead of raising.
+
+    Float exponentiation raises ``OverflowError`` once the result no longer fits a
+    double (``2.0**1024``); callers clamp the result with their ``max`` anyway.
+    """
+    try:
+        return factor * exp_base**attempts
+    except OverflowError:
+        return float("inf")
+
+
 def _to_seconds(value: time_unit_type) -> float:
     return float(value.total_seconds() if isinstance(value, timedelta) else value)
 
@@ -486,7 +498,7 @@ class wait_exponential(_WaitStrategyBase):
     def __call__(self, attempts: int, *, seed: int | None = None) -> float:
         return max(
             max(0.0, self.min),
-            min(self.multiplier * self.exp_base**attempts, self.max),
+            min(_exp_term(self.multiplier, self.exp_base, attempts), self.max),
         )
 
 
@@ -566,7 +578,7 @@ class wait_exponential_jitter(_WaitStrategyBase):
         self.jitter = jitter
 
     def __call__(self, attempts: int, *, seed: int | None = None) -> float:
-        base = min(self.initial * self.exp_base**attempts, self.max)
+        base = min(_exp_term(self.initial, self.exp_base, attempts), self.max)
         rng = random.Random(seed) if seed is not None else random
         return min(base + rng.uniform(0, self.jitter), self.max)
 
@@ -600,7 +612,7 @@ class wait_random_exponential(_WaitStrategyBase):
         rng = random.Random(seed) if seed is not None else random
         upper = max(
             max(0.0, self.min),
-            min(self.multiplier * self.exp_base**attempts, self.max),
+            min(_exp_term(self.multiplier, self.exp_base, attempts), self.max),
         )
         return rng.uniform(self.min, upper)
 
